@@ -54,6 +54,11 @@ func c18Specs(tier string, seed int) []c18Spec {
 		_ = i
 		for _, fm := range formats {
 			out = append(out, c18Spec{File: f, Format: fm, Group: "base", Values: vals}, c18Spec{File: f, Format: fm, Group: "invalid", Values: vals})
+			if fm == "yml" {
+				// one line carrying an override of every base parameter and of every parameter of the first stage, executed
+				// several times (the overrides of a line are kept in maps: their order of application varies from run to run)
+				out = append(out, c18Spec{File: f, Format: fm, Group: "multi", Values: 1}, c18Spec{File: f, Format: fm, Group: "multi", Values: 1, Env: 4})
+			}
 			// the base parameters under every configuration variant; stage and organ parameters under a rotating one
 			for env := 1; env <= 3; env++ {
 				if tier == "thorough" || fm == "txt" || env == 1+i%3 {
@@ -312,7 +317,26 @@ func c18Run(raw json.RawMessage, c *mc.Ctx) {
 	}
 	lines := strings.Split(strings.ReplaceAll(string(classic), "\r\n", "\n"), "\n")
 	S, K := cp.NRENTW, cp.NRKOM
-	cases, ok := c18BuildCases(cp, sp.Group, sp.Values)
+	group := sp.Group
+	if group == "multi" {
+		group = "base"
+	}
+	cases, ok := c18BuildCases(cp, group, sp.Values)
+	if sp.Group == "multi" {
+		more, _ := c18BuildCases(cp, "stage:1", 1)
+		all := c18Case{name: "c_(all base and first-stage parameters)", line: -1}
+		var applies []func(cp *hermes.CropParam)
+		for _, cs := range append(cases, more...) {
+			all.args = append(all.args, cs.args...)
+			applies = append(applies, cs.apply)
+		}
+		all.apply = func(cp *hermes.CropParam) {
+			for _, f := range applies {
+				f(cp)
+			}
+		}
+		cases = []c18Case{all}
+	}
 	if !ok {
 		c.Outcome("stage beyond the file's stages")
 		return
@@ -447,6 +471,11 @@ func c18Run(raw json.RawMessage, c *mc.Ctx) {
 			os.WriteFile(filepath.Join(edit, cropFile), []byte(strings.Join(ls, "\n")), 0o644)
 		}
 		rb, tb := run("parameter=param_edit")
+		if sp.Group == "multi" {
+			for rep := 0; rep < 7 && ta == tb; rep++ {
+				ra, ta = run(append([]string{"CropFile=" + cropFile}, cs.args...)...)
+			}
+		}
 		c.Eval(1)
 		c.Transition(1)
 		h := mc.NewHasher().S(sp.File).S(sp.Format).S(strings.Join(cs.args, " ")).Sum()
